@@ -169,6 +169,13 @@ func runPromGauge(c *core.Ctx) {
 			}
 			good = ins && absent
 			detail = fmt.Sprintf("Inc with insert of the entry in the same block: %v, only when the entry was absent: %v", ins, absent)
+			if !good {
+				// … or guarded by a helper's verdict "newly added": the helper answers true exactly
+				// on the paths that found the entry absent and inserted it
+				if ok, d := verdictGuardsEntry(host, call.Block(), o.Chain, e, true); ok {
+					good, detail = true, d
+				}
+			}
 		})
 		c.Check(good, nil, fname(c, fn), "inc["+msgType+"]", P.Pos(fn.Pos()), "REQ of a not-yet-open subscription id: entry inserted and gauge incremented together", "subscription gauge increment is not tied to the insertion of a new (session, subscription) entry: "+detail+" — a repeated REQ of the same id counts twice")
 	}
@@ -202,6 +209,11 @@ func runPromGauge(c *core.Ctx) {
 			}
 			good = del && present
 			detail = fmt.Sprintf("Dec with delete of the entry in the same block: %v, only when the entry was present: %v", del, present)
+			if !good {
+				if ok, d := verdictGuardsEntry(host, call.Block(), o.Chain, e, false); ok {
+					good, detail = true, d
+				}
+			}
 		})
 		c.Check(good, nil, fname(c, fn), "dec["+msgType+"]", P.Pos(fn.Pos()), msgType+" of an open subscription: entry removed and gauge decremented together", "subscription gauge decrement is not tied to the removal of a present entry: "+detail+" — CLOSE of an unknown id (or a second CLOSED) drives the gauge negative")
 	}
@@ -235,6 +247,76 @@ func runPromGauge(c *core.Ctx) {
 		}
 		c.Check(ok, nil, fname(c, st), "start", P.Pos(st.Pos()), "session start creates the session's (empty) subscription set", "session start does not create the session's set: the first REQ panics on a nil map")
 	}
+}
+
+// verdictGuardsEntry: block b of host runs only when a private helper h
+// answered true, and h answers true exactly on the paths on which it found the
+// set entry e absent and inserted it (insert=true) / present and deleted it
+// (insert=false); on its false paths the set is left alone. chain: the call
+// sites leading from the rule's function to host.
+func verdictGuardsEntry(host *ssa.Function, b *ssa.BasicBlock, chain []*ssa.Call, e string, insert bool) (bool, string) {
+	for _, g := range an.Guards(host, b) {
+		hc, ok := g.V.(*ssa.Call)
+		if !ok || !g.True {
+			continue
+		}
+		h := an.StaticCallee(&hc.Call)
+		if !an.PrivateHelper(h) || h.Signature.Results().Len() != 1 {
+			continue
+		}
+		ch := append(append([]*ssa.Call(nil), chain...), hc)
+		path := func(v ssa.Value) string { return promNorm(an.PathOfChain(v, ch)) }
+		// blocks of h that change the entry
+		effect := map[*ssa.BasicBlock]bool{}
+		an.Instrs(h, func(in ssa.Instruction) {
+			switch x := in.(type) {
+			case *ssa.MapUpdate:
+				if insert && path(x.Map)+"["+path(x.Key)+"]" == e {
+					effect[x.Block()] = true
+				}
+			case *ssa.Call:
+				if bi, isB := x.Call.Value.(*ssa.Builtin); isB && bi.Name() == "delete" && !insert && path(x.Call.Args[0])+"["+path(x.Call.Args[1])+"]" == e {
+					effect[x.Block()] = true
+				}
+			}
+		})
+		if len(effect) == 0 {
+			continue
+		}
+		visits := func(cp an.CondPath) bool {
+			for eb := range effect {
+				if cp.Visits(eb) {
+					return true
+				}
+			}
+			return false
+		}
+		tps, ok1 := an.ResultPaths(h, 0, true)
+		fps, ok2 := an.ResultPaths(h, 0, false)
+		if !ok1 || !ok2 || len(tps) == 0 {
+			continue
+		}
+		good := true
+		for _, tp := range tps {
+			tested := tp.Has(func(cd an.Cond) bool { return path(cd.V) == "ok("+e+")" && cd.True == !insert })
+			if !tested || !visits(tp) {
+				good = false
+			}
+		}
+		for _, fp := range fps {
+			if visits(fp) {
+				good = false
+			}
+		}
+		if good {
+			what := "absent and inserted"
+			if !insert {
+				what = "present and removed"
+			}
+			return true, fmt.Sprintf("guarded by %s, which answers true exactly when it found the entry %s", h.Name(), what)
+		}
+	}
+	return false, ""
 }
 
 // typeLabels: which constant label v denotes for which dynamic type of the
